@@ -237,6 +237,17 @@ func genCases(seed uint64, n int, thorough bool) []Case {
 		add(Case{Stream: "corpus", Op: "abs", P: "pkg/sub", F: f})
 	}
 
+	// the two ways in which Match's greedy chunk loop misses a declarative match
+	// (Caco/MatchComplete.v: match_class_incomplete_refuted,
+	// match_wide_rune_incomplete_refuted): a class takes the '/', "??" takes a
+	// four-byte rune and the next byte; and neighbours that do match
+	for _, ps := range [][2]string{{"*[^a]*b", "x/b"}, {"*[^a]*b", "xyb"}, {"*[^a]/*b", "x/b"},
+		{"*??*X", "\U00010000X"}, {"*??*X", "abcdX"}, {"*?*X", "\U00010000X"}, {"*??*X", "\U00010000aX"},
+		{"*a/*/b?", "xa/yy/bz"}, {"*a/*/b?", "xa/y/y/bz"}, {"*a*a", "aaa/a"}, {"*a/a*a/a", "a/a/a/a"}} {
+		add(Case{Stream: "corpus", Op: "match", Hex: true, Pat: hex.EncodeToString([]byte(ps[0])),
+			S: hex.EncodeToString([]byte(ps[1]))})
+	}
+
 	// path.Clean: every string over {a,b,.,/} up to a length bound.
 	cleanLen := 7
 	if thorough {
@@ -457,6 +468,123 @@ func genCases(seed uint64, n int, thorough bool) []Case {
 				add(Case{Stream: "fileset-ex", Op: "fileset", P: "", Tree: tree, TreeID: etid,
 					Rule: &Rule{Name: "fs", Files: []string{}, Select: []string{sel}, Ignore: ig}})
 			}
+		}
+	}
+
+	// exhaustive scope for SEVERAL directory ignores at once: directories whose
+	// names sort between a directory and the files beneath it ('-' and '.' are
+	// below '/'), a sibling that sorts after ('0'), nested ignored directories,
+	// the root; every set of one to three of these ignores (pairs also in the
+	// other order) x selections x trees.  Whether a name is ignored must be
+	// the disjunction over the entries, each taken alone.
+	ignFiles := []string{"a/b", "a/x", "a/z", "a-b/x", "a.b/x", "a0/x", "a/m/n/x", "a/m/x", "ax"}
+	ignDirs := []string{"a/", "a-b/", "a.b/", "a0/", "a/m/", "a/m/n/", "./"}
+	var ignSets [][]string
+	for i := range ignDirs {
+		ignSets = append(ignSets, []string{ignDirs[i]})
+		for j := i + 1; j < len(ignDirs); j++ {
+			ignSets = append(ignSets, []string{ignDirs[i], ignDirs[j]}, []string{ignDirs[j], ignDirs[i]})
+			for k := j + 1; k < len(ignDirs); k++ {
+				ignSets = append(ignSets, []string{ignDirs[i], ignDirs[j], ignDirs[k]})
+			}
+		}
+	}
+	var ignTrees [][]string
+	ignTrees = append(ignTrees, ignFiles)
+	for i := range ignFiles {
+		ignTrees = append(ignTrees, []string{ignFiles[i]})
+		if thorough {
+			for j := i + 1; j < len(ignFiles); j++ {
+				ignTrees = append(ignTrees, []string{ignFiles[i], ignFiles[j]})
+				for k := j + 1; k < len(ignFiles); k++ {
+					ignTrees = append(ignTrees, []string{ignFiles[i], ignFiles[j], ignFiles[k]})
+				}
+			}
+		}
+	}
+	itid := 250000
+	for ti, files := range ignTrees {
+		itid++
+		for _, pk := range []string{"", "pkg"} {
+			if pk != "" && ti != 0 {
+				continue // the package variant for the full tree only
+			}
+			var fl []string
+			for _, f := range files {
+				if pk != "" {
+					f = pk + "/" + f
+				}
+				fl = append(fl, f)
+			}
+			if pk != "" {
+				itid++
+			}
+			tree := treeEntries(fl)
+			for _, sel := range []string{"**", "a/**", "*/*"} {
+				for _, ig := range ignSets {
+					add(Case{Stream: "fileset-ign", Op: "fileset", P: pk, Tree: tree, TreeID: itid,
+						Rule: &Rule{Name: "fs", Files: []string{}, Select: []string{sel}, Ignore: ig}})
+				}
+			}
+		}
+	}
+
+	// special names where the walk does not expect them: ".git" - which the
+	// recursive listing prunes as a DIRECTORY - as a regular file (the "gitdir:"
+	// pointer of worktrees and submodules), as a symbolic link to a file, a
+	// dangling link, a link to a directory, and as a real directory, at the
+	// root and in a sub-directory, with siblings sorting before and after it;
+	// and the file names the walk leaves out (COPYING, tags, .DS_Store,
+	// .gitignore, *.caco3) as DIRECTORIES with files in them.  A non-directory
+	// never prunes anything; a directory named like a skipped file is walked.
+	spBase := []string{"-x", ".a", "a", "z/y", "d/-x", "d/a", "d/z/q", "COPYING/x", "tags/x", "b.caco3/x",
+		".DS_Store/x", ".gitignore/x", "d/tags/t", "d/COPYING/c"}
+	gitAs := func(at string, how int) []TE {
+		g := ".git"
+		up := ""
+		if at != "" {
+			g = at + "/.git"
+			up = "../"
+		}
+		switch how {
+		case 1:
+			return []TE{{P: g}}
+		case 2:
+			return []TE{{P: g, K: "lf", L: up + "a"}}
+		case 3:
+			return []TE{{P: g, K: "lb", L: "nowhere"}}
+		case 4:
+			return []TE{{P: g, K: "ld", L: up + "z"}, {P: g + "/y", V: true}}
+		case 5:
+			return []TE{{P: g, D: true}, {P: g + "/config"}}
+		}
+		return nil
+	}
+	stid := 260000
+	for h0 := 0; h0 < 6; h0++ {
+		for h1 := 0; h1 < 6; h1++ {
+			stid++
+			t := treeEntries(spBase)
+			t = append(t, gitAs("", h0)...)
+			t = append(t, gitAs("d", h1)...)
+			sort.Slice(t, func(i, j int) bool { return t[i].P < t[j].P })
+			for _, sel := range []string{"**", "d/**", "z/**", ".git/**", "d/.git/**", "COPYING/**"} {
+				for _, ig := range [][]string{{}, {"z/"}} {
+					add(Case{Stream: "fileset-special", Op: "fileset", P: "", Tree: t, TreeID: stid,
+						Rule: &Rule{Name: "fs", Files: []string{}, Select: []string{sel}, Ignore: ig}})
+				}
+			}
+		}
+	}
+	// ... and a package that holds nothing but a ".git" file and names sorting after it
+	for h := 1; h < 5; h++ {
+		stid++
+		t := treeEntries([]string{"m/a", "m/b/c", "other/o"})
+		t = append(t, gitAs("m", h)...)
+		sort.Slice(t, func(i, j int) bool { return t[i].P < t[j].P })
+		for _, sel := range []string{"**", "b/**"} {
+			add(Case{Stream: "fileset-special", Op: "fileset", P: "m", Tree: t, TreeID: stid,
+				Rule: &Rule{Name: "fs", Files: []string{}, Select: []string{sel}, Ignore: []string{}}})
 		}
 	}
 
